@@ -63,9 +63,74 @@ def _model_cycles():
     return [m1, m2, m3]
 
 
+def _nested_failures():
+    """Nested calls that fail and are caught by the calling printer: the rest of the enclosing call must print as if the failing part
+    had printed `<error>` without raising.  -> None, or (description, observed, expected)."""
+    class _Raiser2:
+        pass
+
+    class _Quiet:
+        pass
+
+    class _Tolerant:
+        def __init__(self, *parts):
+            self.parts = list(parts)
+
+    def _tol(t):
+        out = []
+        for p in t.parts:
+            try:
+                out.append(hy.repr(p))
+            except ZeroDivisionError:
+                out.append("<error>")
+        return "(Tolerant " + " ".join(out) + ")"
+
+    def _boom(x):
+        raise ZeroDivisionError("printer raises")
+    hr.hy_repr_register(_Raiser2, _boom)
+    hr.hy_repr_register(_Quiet, lambda x: "<error>")
+    hr.hy_repr_register(_Tolerant, _tol, "(Tolerant ...)")
+    try:
+        def build(bad):
+            cyc = [hm.Symbol("x")]
+            tcyc = _Tolerant(bad(), cyc)
+            cyc.insert(0, tcyc)
+            return [
+                ("a quoted model holding a printer that catches a failed nested call",
+                 hm.Expression([hm.Symbol("f"), _Tolerant(hm.Symbol("a"), bad(), hm.Symbol("b"), hm.List([hm.Symbol("c")])), hm.Symbol("d")])),
+                ("a list holding such a printer", [_Tolerant(hm.Symbol("a"), bad(lambda r: [r]), hm.Symbol("b")), hm.Symbol("d")]),
+                ("such a printer whose failing part sits under a model",
+                 hm.List([_Tolerant(bad(lambda r: hm.Tuple([hm.Symbol("t"), r])), hm.Symbol("b")), hm.Symbol("d")])),
+                ("a cycle through such a printer (the failed part comes before the self-reference)", [tcyc]),
+            ]
+        for (what, v), (_, w) in zip(build(lambda wrap=(lambda r: r): wrap(_Raiser2())), build(lambda wrap=None: _Quiet())):
+            texts = []
+            for val in (v, w):
+                hr._seen.clear()
+                hr._quoting = False
+                try:
+                    texts.append(hy.repr(val))
+                except BaseException as e:  # noqa: BLE001
+                    texts.append(f"<{type(e).__name__}>")
+            hr._seen.clear()
+            hr._quoting = False
+            if texts[0] != texts[1]:
+                return (what, texts[0], texts[1])
+        return None
+    finally:
+        for c in (_Raiser2, _Quiet, _Tolerant):
+            hr._registry.pop(c, None)
+        hr._seen.clear()
+        hr._quoting = False
+
+
 def _concrete(name, model):
     """Replay for a refuted VC of hy-repr: a short history on the real function after which the module state is not
     what it was, or a later call prints something else than in a fresh state."""
+    nf = _nested_failures()
+    if nf is not None:
+        return {"confirmed": True, "input": "hy.repr of " + nf[0], "observed": nf[1],
+                "expected": nf[2] + "   (the text when the failing part prints <error> without raising)"}
     want = {"sym": "'a", "list": "[1 'b]"}
 
     class _Raiser:
@@ -217,8 +282,17 @@ def module_state_frame(chk):
                                                      "observed": repr(texts[1]), "expected": "'(Late)'"})
 
 
+def nested(chk):
+    nf = _nested_failures()
+    chk.case(("nested-failures",))
+    chk.ob("nested/a nested call that fails and is caught by the calling printer leaves quoting and cycle state of the enclosing call as it "
+           "found them", nf is None, "rtc", "bounded", detail=str(nf),
+           replay=None if nf is None else {"confirmed": True, "input": "hy.repr of " + nf[0], "observed": nf[1], "expected": nf[2]})
+
+
 def run(chk):
     module_state_frame(chk)
+    nested(chk)
     targets.c28(chk, concrete=_concrete)
     rely_scan(chk)
     histories(chk)
